@@ -4,6 +4,8 @@
     of [SanitizerConfig::clean]; [Allowed]/[survive] are the specification. *)
 From Base Require Import Prelude.
 From C14 Require Import Dom Tables Model Spec Proofs1 Proofs2 Proofs3 Proofs4.
+From C14 Require Run NonVacuity.  (* compile order only: Properties.v is built last, so that no other
+                                    file's progress line interleaves with the Print Assumptions reports *)
 
 (** The allow-lists, deprecated-name maps, scheme and class lists and the depth limit compiled
     into ruma are exactly those of the Matrix specification (plus [matrix:] links in compat). *)
